@@ -225,6 +225,7 @@ func (sn Struct[T, G]) Dependencies() []NodeDependency {
 			})
 		}
 	}
+	verifPermute(output)
 	return output
 }
 
